@@ -6,7 +6,7 @@
 #
 REPO    ?= /repo
 FLAVOUR ?= plain
-V       := /verif
+V       ?= /verif
 # build dir is keyed by the repo path so a scratch copy (mutant runs) never mixes objects
 RKEY    := $(shell echo $(REPO) | md5sum | cut -c1-8)
 B       := $(V)/build/$(FLAVOUR)-$(RKEY)
